@@ -155,6 +155,13 @@ def rule_reindex(ctx):
         done = False
         for it, pat, body, node in for_loops(fn["body"]):
             pos = tuple_positions(pat)
+            counter = None
+            it0 = peel_refs(it) if isinstance(it, dict) else {}
+            if it0.get("k") == "MethodCall" and it0["name"] == "enumerate":
+                # `for (position, (word, (idx, _))) in map.iter_mut().enumerate()`: the entry is component 1, the counter 0
+                cs = [l for l, p in pos.items() if p == (0,)]
+                counter = cs[0] if cs else None
+                pos = {l: p[1:] for l, p in pos.items() if p and p[0] == 1}
             keyb = [l for l, p in pos.items() if p and p[0] == 0]
             stmts = []
             b0 = strip(body)
@@ -185,6 +192,23 @@ def rule_reindex(ctx):
             elif is_len and assign_i <= push_i and a_node["ln"] <= p_node["ln"]:
                 res.ok()
                 res.sample({"fn": key, "column": "vec.len() before the push of the same word"})
+            elif counter is not None and rhs.get("k") == "Path" and rhs.get("local") == counter:
+                # the counter of `enumerate()` is the position in the list iff the list starts empty and grows by exactly
+                # one word per entry: one push, a statement of the loop body itself (not under a condition)
+                pushes = [y for st in stmts for y in walk(st) if y.get("k") == "MethodCall" and y["name"] in ("push", "insert", "extend", "pop", "remove") and peel_refs(y["recv"]).get("local") == vec]
+                top = any(strip(st.get("e") if st.get("k") == "Semi" else st) is p_node for st in stmts)
+                init = next((y["init"] for y in walk(fn["body"]) if y.get("k") == "LetStmt" and y.get("init") is not None and y["pat"].get("k") == "Bind" and y["pat"]["local"] == vec), None)
+                fresh = False
+                if init is not None:
+                    i0 = peel_refs(init)
+                    f0 = strip(i0["f"]) if i0.get("k") == "Call" else {}
+                    d0 = c.dfn(f0.get("def")) if f0.get("k") == "Path" else None
+                    fresh = bool(d0 and d0["name"] in ("new", "with_capacity"))
+                if len(pushes) == 1 and top and fresh:
+                    res.ok()
+                    res.sample({"fn": key, "column": "the counter of enumerate(), one unconditional push per entry onto a list that starts empty"})
+                else:
+                    res.undecided("%s : column-source" % key, "the column is the counter of `enumerate()`, but the list does not provably start empty and grow by one word per entry (fail closed)", fn_loc(fn, a_node["ln"]))
             elif is_len_m1 and push_i <= assign_i:
                 res.ok()
             elif is_len or is_len_m1:
